@@ -1,5 +1,472 @@
-/- C05 — property theorems only. -/
+/-
+C05 — the parallel (dask) COG writer produces a correct, overview-first GeoTIFF.
+
+Property theorems only, about the model `OdcGeo/Model/C05.lean` (which mirrors
+`odc/geo/cog/_shared.py`, `_tifffile.py` at the `fix-C05` branch).  All statements are for
+arbitrary sizes, block lists, sample counts, observed streams.
+
+Assumed by name (owned by C06, not proved here): `C06.main` — the bytes handed to the parts
+writer, concatenated in part order, equal `header ++ tiles in stream order`.  With it,
+"position in the observed stream" (`streamOff`) *is* "offset in the file"; the harness checks
+that on every file it writes (offset order = `writeOrder`, gap-free from header size to EOF).
+So `file_is_header_then_tiles` of DESIGN §4 is `C06.main` + `tile_info_exact` + `patch_hdr_exact`.
+-/
 import OdcGeo.Model.C05
+import OdcGeo.Lemmas.C05
+import Mathlib.Tactic.Ring
+import Mathlib.Tactic.Linarith
+import Mathlib.Data.List.Nodup
+
 namespace OdcGeo.C05
+
+/-! ## tile sizes -/
+
+/-- every tile size the writer uses is a multiple of 16 (`adjust_blocksize`, any `dim`) -/
+theorem blocksize_mult16 (block dim : Nat) : 16 ∣ adjustBlocksize block dim := by
+  unfold adjustBlocksize
+  split <;> exact alignUp_dvd _ 16 (by decide)
+
+/-- … and rounds the governing size (image side if smaller than the block, else the block) up
+by less than 16 -/
+theorem blocksize_bounds (block dim : Nat) :
+    let g := if 0 < dim ∧ dim < block then dim else block
+    g ≤ adjustBlocksize block dim ∧ adjustBlocksize block dim < g + 16 := by
+  unfold adjustBlocksize
+  split
+  · exact ⟨alignUp_ge _ 16 (by decide), alignUp_lt _ 16 (by decide)⟩
+  · exact ⟨alignUp_ge _ 16 (by decide), alignUp_lt _ 16 (by decide)⟩
+
+theorem blocksize_pos (block dim : Nat) (hb : 0 < block) : 0 < adjustBlocksize block dim := by
+  have := blocksize_bounds block dim
+  simp only at this
+  split at this <;> omega
+
+theorem norm_blocksize_mult16 (b : Blk) : 16 ∣ (normBlocksize b).y ∧ 16 ∣ (normBlocksize b).x := by
+  cases b <;> simp only [normBlocksize] <;> exact ⟨blocksize_mult16 _ _, blocksize_mult16 _ _⟩
+
+/-- `compute_cog_spec` adjusts an already adjusted tile again: a no-op -/
+theorem adjust_idem (b : Nat) : adjustBlocksize (adjustBlocksize b) = adjustBlocksize b := by
+  have h : ∀ x, adjustBlocksize x = alignUp x 16 := by intro x; simp [adjustBlocksize]
+  rw [h, h]
+  exact alignUp_of_dvd _ 16 (by decide) (alignUp_dvd _ 16 (by decide))
+
+/-! ## number of overviews: the `while` loop -/
+
+/-- `num_overviews(block, dim)` is the least `k` with `⌊dim / 2^k⌋ ≤ block`: iterated
+floor-halving equals one floor division, and no smaller exponent fits. -/
+theorem num_overviews_spec (block dim : Nat) :
+    dim / 2 ^ numOverviews block dim ≤ block ∧ ∀ j, j < numOverviews block dim → block < dim / 2 ^ j :=
+  numOverviewsFuel_least dim block dim (Nat.le_refl _)
+
+theorem num_overviews_least (block dim k : Nat) (h : dim / 2 ^ k ≤ block) : numOverviews block dim ≤ k := by
+  rcases Nat.lt_or_ge k (numOverviews block dim) with hlt | hge
+  · have := (num_overviews_spec block dim).2 k hlt; omega
+  · exact hge
+
+/-- termination: the iteration budget is never what stops the loop — any budget `≥ dim`
+gives the same count (the loop runs at most `dim` times because `dim` strictly decreases
+while `block < dim`). -/
+theorem num_overviews_fuel_irrelevant (fuel block dim : Nat) (h : dim ≤ fuel) :
+    numOverviewsFuel fuel block dim = numOverviews block dim :=
+  leastHalvings_unique (numOverviewsFuel_least fuel block dim h) (num_overviews_spec block dim)
+
+example : numOverviews 32 1023 = 5 ∧ numOverviews 256 78 = 0 ∧ numOverviews 16 300 = 5 := by decide
+
+/-! ## padded shape -/
+
+/-- `compute_cog_spec` without `max_pad`: each side is padded up (never cropped, never moved:
+the GeoBox is `expand`ed, which keeps the affine) by less than `2^n` to a multiple of `2^n`;
+`n` is the larger of the two overview counts. -/
+theorem padded_shape (shape tile : YX) :
+    let r := computeCogSpec shape tile
+    let n := r.2.2
+    n = max (numOverviews (adjustBlocksize tile.x) shape.x) (numOverviews (adjustBlocksize tile.y) shape.y) ∧
+    r.2.1 = ⟨adjustBlocksize tile.y, adjustBlocksize tile.x⟩ ∧
+    shape.y ≤ r.1.y ∧ r.1.y < shape.y + 2 ^ n ∧ 2 ^ n ∣ r.1.y ∧
+    shape.x ≤ r.1.x ∧ r.1.x < shape.x + 2 ^ n ∧ 2 ^ n ∣ r.1.x := by
+  intro r n
+  have hp : ∀ n, 0 < 2 ^ n := fun n => Nat.two_pow_pos n
+  refine ⟨rfl, rfl, ?_⟩
+  have hr : r.1 = ⟨alignUp shape.y (2 ^ n), alignUp shape.x (2 ^ n)⟩ := by
+    simp only [r, n, computeCogSpec]; rw [if_pos (hp _)]
+  rw [hr]
+  exact ⟨alignUp_ge _ _ (hp _), alignUp_lt _ _ (hp _), alignUp_dvd _ _ (hp _),
+    alignUp_ge _ _ (hp _), alignUp_lt _ _ (hp _), alignUp_dvd _ _ (hp _)⟩
+
+/-- F19 witness: the padding can cross a tile boundary — 272 rows with 16-pixel tiles are padded
+to 288 rows = 18 tile rows, the unpadded source has only 17 chunk rows (the writer now pads
+the source, `_pad_to_cog_shape`). -/
+theorem padding_adds_tile_cex :
+    let p := (computeCogSpec ⟨272, 16⟩ ⟨16, 16⟩).1
+    (Meta.chunked ⟨1, p, ⟨16, 16⟩⟩).y = 18 ∧ (Meta.chunked ⟨1, ⟨272, 16⟩, ⟨16, 16⟩⟩).y = 17 := by
+  decide
+
+/-! ## the level loop of the header writer -/
+
+/-- `levels_halve` + `header_levels_total`: for **every** image of at least 1×1 pixels (also
+with sides `≤ 2^n`), any block list and with or without a GeoBox, the level loop returns
+`n + 1` levels without error; level `k` has shape exactly `p / 2^k` (`shape_k · 2^k = p`,
+never rounded), at least 1×1 pixels, the tile prescribed by the cycled block list, and the
+GeoBox affine `A · scale(2^k)`. -/
+theorem header_levels_total (im : YX) (hy : 1 ≤ im.y) (hx : 1 ≤ im.x) (bs : List Blk) (last : Blk)
+    (g : Option Aff) :
+    let p := (computeCogSpec im (normBlocksize last)).1
+    let n := (computeCogSpec im (normBlocksize last)).2.2
+    ∃ lv, levelLoop (blockAt bs last) n (n + 1) 0 p g = .ok lv ∧ lv.length = n + 1 ∧
+      ∀ k (hk : k < lv.length),
+        lv[k].shape.y * 2 ^ k = p.y ∧ lv[k].shape.x * 2 ^ k = p.x ∧
+        1 ≤ lv[k].shape.y ∧ 1 ≤ lv[k].shape.x ∧
+        lv[k].tile = normBlocksize (blockAt bs last k) ∧
+        16 ∣ lv[k].tile.y ∧ 16 ∣ lv[k].tile.x ∧
+        lv[k].aff = g.map (fun A => A * Aff.scale (2 ^ k) (2 ^ k)) := by
+  intro p n
+  obtain ⟨_, _, h1, _, ⟨cy, hcy⟩, h2, _, ⟨cx, hcx⟩⟩ := padded_shape im (normBlocksize last)
+  have hpy : p.y = 2 ^ n * cy := hcy
+  have hpx : p.x = 2 ^ n * cx := hcx
+  have hcy0 : 0 < cy := by
+    rcases Nat.eq_zero_or_pos cy with h | h
+    · subst h; have : p.y = 0 := by rw [hpy]; simp
+      have : im.y ≤ p.y := h1
+      omega
+    · exact h
+  have hcx0 : 0 < cx := by
+    rcases Nat.eq_zero_or_pos cx with h | h
+    · subst h; have : p.x = 0 := by rw [hpx]; simp
+      have : im.x ≤ p.x := h2
+      omega
+    · exact h
+  obtain ⟨lv, hlv, hlen, hall⟩ := levelLoop_spec (blockAt bs last) n (n + 1) 0 p g (by omega)
+    ⟨cy, hcy0, by rw [hpy, Nat.add_sub_cancel, Nat.mul_comm]⟩
+    ⟨cx, hcx0, by rw [hpx, Nat.add_sub_cancel, Nat.mul_comm]⟩
+  refine ⟨lv, hlv, hlen, ?_⟩
+  intro k hk
+  obtain ⟨a1, a2, a3, a4, a5, a6⟩ := hall k hk
+  simp only [Nat.zero_add] at a5
+  exact ⟨a1, a2, a3, a4, a5, a5 ▸ (norm_blocksize_mult16 _).1, a5 ▸ (norm_blocksize_mult16 _).2, a6⟩
+
+/-- the same at the level of `_make_empty_cog`: whenever the axis order is determined and the
+image has at least 1×1 pixels and the block list is not empty, the call succeeds -/
+theorem make_empty_cog_total (shape : List Nat) (gbox : Option (YX × Aff)) (bs : List Blk)
+    (ax : Axis) (yd : Nat) (im : YX) (ns : Nat) (last : Blk)
+    (hax : yaxisFromShape shape (gbox.map (·.1)) = .ok (ax, yd))
+    (him : imShape ax shape = some (im, ns)) (hlast : bs.getLast? = some last)
+    (hy : 1 ≤ im.y) (hx : 1 ≤ im.x) :
+    ∃ c, makeEmptyCog shape gbox bs = .ok c ∧ c.axis = ax ∧ c.nsamples = ns ∧
+      c.nlevels = (computeCogSpec im (normBlocksize last)).2.2 ∧ c.levels.length = c.nlevels + 1 := by
+  obtain ⟨lv, hlv, hlen, _⟩ := header_levels_total im hy hx bs last (gbox.map (·.2))
+  refine ⟨⟨ax, ns, if ax = .SYX then ns else 1, _, lv⟩, ?_, rfl, rfl, rfl, hlen⟩
+  simp only [makeEmptyCog, makeEmptyCogWith, hax, him, hlast]
+  rw [hlv]
+
+/-- F18 witness: the loop as it was before the repair (shrink + `zoom_to` after *every* level)
+divides by zero for an 8×200 image with 32-pixel tiles and a GeoBox … -/
+theorem header_levels_prefix_cex :
+    makeEmptyCogPreFix [8, 200] (some (⟨8, 200⟩, ⟨1, 0, 0, 0, -1, 0⟩)) [.one 32] = .error .zeroDiv := by
+  decide +kernel
+
+/-- … while without a GeoBox the old loop succeeded, and the repaired loop succeeds with it. -/
+theorem header_levels_prefix_nogbox :
+    (makeEmptyCogPreFix [8, 200] none [.one 32]).toOption.map (·.levels.length) = some 4 ∧
+    (makeEmptyCog [8, 200] (some (⟨8, 200⟩, ⟨1, 0, 0, 0, -1, 0⟩)) [.one 32]).toOption.map
+      (·.levels.length) = some 4 := by
+  decide +kernel
+
+/-- axis order: a GeoBox that matches the last two axes (and not the first two) makes the image
+band-first, whatever its width … -/
+theorem yaxis_gbox_decides (a b c : Nat) (g : YX) (h1 : g ≠ ⟨a, b⟩) (h2 : g = ⟨b, c⟩) :
+    yaxisFromShape [a, b, c] (some g) = .ok (.SYX, 1) := by
+  subst h2
+  have : ¬ ((⟨b, c⟩ : YX) = ⟨a, b⟩) := h1
+  simp [yaxisFromShape, this]
+
+/-- … which the order of tests before the repair got wrong for 3- or 4-pixel-wide images. -/
+theorem yaxis_prefix_cex : yaxisFromShapePreFix [2, 8, 3] (some ⟨8, 3⟩) = .ok (.YXS, 0) := by decide
+
+/-- default block list (`blocksize` unset): both entries normalise to positive tiles, also for
+1-pixel chunks (repaired) -/
+theorem default_blocksize_pos (cy cx : Nat) (hy : 1 ≤ cy) (hx : 1 ≤ cx) :
+    ∀ b ∈ defaultBlocksize cy cx, 0 < (normBlocksize b).y ∧ 0 < (normBlocksize b).x := by
+  intro b hb
+  simp only [defaultBlocksize, List.mem_cons, List.not_mem_nil, or_false] at hb
+  rcases hb with rfl | rfl
+  · simp only [normBlocksize]; exact ⟨blocksize_pos _ _ (by omega), blocksize_pos _ _ (by omega)⟩
+  · simp only [normBlocksize]; exact ⟨blocksize_pos _ _ (by omega), blocksize_pos _ _ (by omega)⟩
+
+/-! ## tile enumeration and flat index -/
+
+theorem mem_tidx (m : Meta) (s y x : Nat) :
+    (s, y, x) ∈ m.tidx ↔ s < m.planes ∧ y < m.chunked.y ∧ x < m.chunked.x := by
+  simp only [Meta.tidx, List.mem_flatMap, List.mem_map, List.mem_range, Prod.mk.injEq]
+  constructor
+  · rintro ⟨s', hs, y', hy, x', hx, rfl, rfl, rfl⟩; exact ⟨hs, hy, hx⟩
+  · rintro ⟨hs, hy, hx⟩; exact ⟨s, hs, y, hy, x, hx, rfl, rfl, rfl⟩
+
+/-- `flat_tile_idx` accepts exactly the indices inside the tile grid -/
+theorem flat_tile_idx_ok (m : Meta) (s y x : Nat) :
+    m.flatTileIdx s y x = if s < m.planes ∧ y < m.chunked.y ∧ x < m.chunked.x
+      then .ok (m.flatRaw s y x) else .error .indexError := by
+  unfold Meta.flatTileIdx
+  by_cases h : s < m.planes ∧ y < m.chunked.y ∧ x < m.chunked.x
+  · rw [if_pos h, if_neg (by omega)]; simp
+  · rw [if_neg h, if_pos (by omega)]
+
+/-- `flat_idx_bijection`, enumeration form: the `i`-th tile enumerated by `tidx()` has flat index
+`i`, and there are `num_tiles` of them. -/
+theorem flat_idx_enum (m : Meta) :
+    m.tidx.map (fun t => m.flatTileIdx t.1 t.2.1 t.2.2) = (List.range m.numTiles).map .ok := by
+  rw [← tidx_map_flat m, List.map_map]
+  apply List.map_congr_left
+  rintro ⟨s, y, x⟩ ht
+  rw [mem_tidx] at ht
+  simp [flat_tile_idx_ok, ht]
+
+theorem flat_idx_lt (m : Meta) (s y x : Nat) (h : s < m.planes ∧ y < m.chunked.y ∧ x < m.chunked.x) :
+    m.flatRaw s y x < m.numTiles := by
+  have : m.flatRaw s y x ∈ m.tidx.map (fun t => m.flatRaw t.1 t.2.1 t.2.2) :=
+    List.mem_map.mpr ⟨(s, y, x), (mem_tidx m s y x).mpr h, rfl⟩
+  rw [tidx_map_flat] at this
+  exact List.mem_range.mp this
+
+/-- injective on the tile grid -/
+theorem flat_idx_inj (m : Meta) (s y x s' y' x' : Nat)
+    (h : s < m.planes ∧ y < m.chunked.y ∧ x < m.chunked.x)
+    (h' : s' < m.planes ∧ y' < m.chunked.y ∧ x' < m.chunked.x)
+    (he : m.flatRaw s y x = m.flatRaw s' y' x') : (s, y, x) = (s', y', x') := by
+  have hnd : (m.tidx.map (fun t => m.flatRaw t.1 t.2.1 t.2.2)).Nodup := by
+    rw [tidx_map_flat]; exact List.nodup_range
+  exact List.inj_on_of_nodup_map hnd ((mem_tidx m s y x).mpr h) ((mem_tidx m s' y' x').mpr h') he
+
+/-- onto `[0, num_tiles)` -/
+theorem flat_idx_surj (m : Meta) (i : Nat) (hi : i < m.numTiles) :
+    ∃ s y x, (s < m.planes ∧ y < m.chunked.y ∧ x < m.chunked.x) ∧ m.flatRaw s y x = i := by
+  have : i ∈ m.tidx.map (fun t => m.flatRaw t.1 t.2.1 t.2.2) := by
+    rw [tidx_map_flat]; exact List.mem_range.mpr hi
+  obtain ⟨⟨s, y, x⟩, ht, rfl⟩ := List.mem_map.mp this
+  exact ⟨s, y, x, (mem_tidx m s y x).mp ht, rfl⟩
+
+/-- the tile grid covers the image: `chunked · tile ≥ shape > (chunked − 1) · tile` -/
+theorem chunked_covers (N t : Nat) (ht : 0 < t) :
+    N ≤ ((N + t - 1) / t) * t ∧ ((N + t - 1) / t) * t < N + t := by
+  have h1 := Nat.div_add_mod (N + t - 1) t
+  have h2 := Nat.mod_lt (N + t - 1) ht
+  rw [Nat.mul_comm] at h1
+  constructor <;> omega
+
+/-! ## tile padding in the block compressors -/
+
+/-- padding is only after the data (right / bottom), and data + padding is one full tile -/
+theorem tile_pad_right_bottom (N t i : Nat) :
+    (tilePad N t i).1 = 0 ∧ blockExtent N t i + (tilePad N t i).2 = t := by
+  refine ⟨rfl, ?_⟩
+  show min t (N - i * t) + (t - min t (N - i * t)) = t
+  omega
+
+/-- the per-tile extents partition the source rows/columns: pixel `r` lies in tile `r / t`, inside
+that tile's extent -/
+theorem block_extents_partition (N t r : Nat) (ht : 0 < t) (hr : r < N) :
+    r / t < (N + t - 1) / t ∧ (r / t) * t ≤ r ∧ r < (r / t) * t + blockExtent N t (r / t) := by
+  have h1 := Nat.div_add_mod r t
+  have h2 := Nat.mod_lt r ht
+  rw [Nat.mul_comm] at h1
+  refine ⟨?_, by omega, ?_⟩
+  · rw [Nat.div_lt_iff_lt_mul ht]
+    have := (chunked_covers N t ht).1
+    omega
+  · simp only [blockExtent]; omega
+
+/-! ## header patching from the observed stream -/
+
+/-- position of the `i`-th observed tile in the byte stream that starts at `start` -/
+def streamOff (start : Nat) (tiles : List Obs) (i : Nat) : Nat := start + sizes (tiles.take i)
+
+theorem look_initInfo (ms : List Meta) (l f : Nat) (m : Meta) (hm : ms[l]? = some m) (hf : f < m.numTiles) :
+    look (initInfo ms) l f = some (0, 0) := by
+  simp [look, initInfo, hm, hf]
+
+theorem obsKey_lt {ms : List Meta} {t : Obs} {l f : Nat} (h : obsKey ms t = .ok (l, f)) :
+    ∃ m, ms[l]? = some m ∧ f < m.numTiles := by
+  unfold obsKey at h
+  cases hm : ms[t.lvl]? with
+  | none => rw [hm] at h; cases h
+  | some m =>
+    rw [hm] at h
+    simp only at h
+    cases hfl : m.flatTileIdx t.p t.y t.x with
+    | error e => rw [hfl] at h; cases h
+    | ok f' =>
+      rw [hfl] at h
+      cases h
+      refine ⟨m, hm, ?_⟩
+      unfold Meta.flatTileIdx at hfl
+      split at hfl
+      · cases hfl
+      · cases hfl
+        apply flat_idx_lt
+        omega
+
+/-- the loop raises `IndexError` unless every observed tile id lies inside its IFD's grid -/
+theorem tile_info_ok_ids (ms : List Meta) : ∀ (ts : List Obs) (st0 st' : TileInfo × Nat),
+    extractLoop ms st0 ts = .ok st' → ∀ i (hi : i < ts.length), ∃ k, obsKey ms ts[i] = .ok k := by
+  intro ts
+  induction ts with
+  | nil => intro _ _ _ i hi; simp at hi
+  | cons t ts ih =>
+    intro st0 st' hr i hi
+    rw [extractLoop] at hr
+    cases hs : extractStep ms st0 t with
+    | error e' => rw [hs] at hr; cases hr
+    | ok st1 =>
+      rw [hs] at hr
+      cases i with
+      | zero =>
+        simp only [List.getElem_cons_zero]
+        cases hk : obsKey ms t with
+        | error e => simp [extractStep, hk] at hs
+        | ok k => exact ⟨k, rfl⟩
+      | succ i => exact ih st1 st' hr i (by simpa using hi)
+
+/-- `tile_info_exact`: for **every** observed stream — any order, any subset of tiles, zero-size
+tiles skipped — in which no tile is reported twice with data, the entry of the `i`-th observed
+tile is `(start + Σ_{j<i} size_j, size_i)`: its interval starts where the previous data ended
+and has the observed length. -/
+theorem tile_info_exact (ms : List Meta) (tiles : List Obs) (start : Nat) (info : TileInfo)
+    (h : extractTileInfo ms tiles start = .ok info)
+    (hnd : ∀ i j (hi : i < tiles.length) (hj : j < tiles.length), i < j →
+      tiles[i].sz ≠ 0 → tiles[j].sz ≠ 0 → obsKey ms tiles[i] ≠ obsKey ms tiles[j]) :
+    ∀ i (hi : i < tiles.length), tiles[i].sz ≠ 0 →
+      ∃ l f, obsKey ms tiles[i] = .ok (l, f) ∧
+        look info l f = some (streamOff start tiles i, tiles[i].sz) := by
+  unfold extractTileInfo at h
+  cases hr : extractLoop ms (initInfo ms, start) tiles with
+  | error e => rw [hr] at h; cases h
+  | ok st =>
+    obtain ⟨info', off'⟩ := st
+    rw [hr] at h
+    cases h
+    obtain ⟨_, _, _, a4⟩ := extractLoop_spec ms tiles (initInfo ms) start info' off' hr
+    intro i hi hz
+    obtain ⟨k, hk⟩ := tile_info_ok_ids ms tiles _ _ hr i hi
+    cases k with
+    | mk l f =>
+      obtain ⟨m, hm, hf⟩ := obsKey_lt hk
+      refine ⟨l, f, hk, ?_⟩
+      apply a4 i hi l f hz hk (by rw [look_initInfo ms l f m hm hf]; rfl)
+      intro j hj hij hzj hkj
+      exact hnd i j hi hj hij hz hzj (by rw [hk, hkj])
+
+/-- the intervals `[streamOff i, streamOff i + size_i)` start at the header size, are gap-free in
+stream order, pairwise disjoint, and end at `start + total size` -/
+theorem stream_intervals (start : Nat) (tiles : List Obs) :
+    streamOff start tiles 0 = start ∧
+    (∀ i (hi : i < tiles.length), streamOff start tiles (i + 1) = streamOff start tiles i + tiles[i].sz) ∧
+    (∀ i j (hi : i < tiles.length), i < j → streamOff start tiles i + tiles[i].sz ≤ streamOff start tiles j) ∧
+    streamOff start tiles tiles.length = start + sizes tiles := by
+  have hstep : ∀ i (hi : i < tiles.length),
+      streamOff start tiles (i + 1) = streamOff start tiles i + tiles[i].sz := by
+    intro i hi
+    simp only [streamOff, List.take_succ_eq_append_getElem hi, sizes, List.map_append, List.sum_append]
+    simp [Nat.add_assoc]
+  have hmono : ∀ i j, i ≤ j → streamOff start tiles i ≤ streamOff start tiles j := by
+    intro i j hij
+    induction j with
+    | zero => have : i = 0 := by omega
+              subst this; exact Nat.le_refl _
+    | succ j ih =>
+      rcases Nat.lt_or_ge i (j + 1) with hlt | hge
+      · have h1 := ih (by omega)
+        rcases Nat.lt_or_ge j tiles.length with hj | hj
+        · rw [hstep j hj]; omega
+        · have : streamOff start tiles (j + 1) = streamOff start tiles j := by
+            simp only [streamOff, List.take_of_length_le hj, List.take_of_length_le (Nat.le_succ_of_le hj)]
+          omega
+      · have : i = j + 1 := by omega
+        subst this; exact Nat.le_refl _
+  refine ⟨by simp [streamOff], hstep, ?_, by simp [streamOff]⟩
+  intro i j hi hij
+  rw [← hstep i hi]
+  exact hmono (i + 1) j hij
+
+/-- a tile of the grid that was never observed with data keeps the entry `(0, 0)` -/
+theorem tile_info_unobserved (ms : List Meta) (tiles : List Obs) (start : Nat) (info : TileInfo)
+    (h : extractTileInfo ms tiles start = .ok info) (l f : Nat) (m : Meta)
+    (hm : ms[l]? = some m) (hf : f < m.numTiles)
+    (hno : ∀ t ∈ tiles, t.sz ≠ 0 → obsKey ms t ≠ .ok (l, f)) :
+    look info l f = some (0, 0) := by
+  unfold extractTileInfo at h
+  cases hr : extractLoop ms (initInfo ms, start) tiles with
+  | error e => rw [hr] at h; cases h
+  | ok st =>
+    obtain ⟨info', off'⟩ := st
+    rw [hr] at h
+    cases h
+    obtain ⟨_, a2, _, _⟩ := extractLoop_spec ms tiles (initInfo ms) start info' off' hr
+    rw [a2 l f hno, look_initInfo ms l f m hm hf]
+
+/-- `_patch_hdr`: the tags hold the stream position (from 0) shifted by the header size -/
+theorem patch_hdr_exact (ms : List Meta) (tiles : List Obs) (hdrSz : Nat) (info info0 : TileInfo)
+    (h0 : extractTileInfo ms tiles 0 = .ok info0) (h : patchHdr ms tiles hdrSz = .ok info)
+    (l f o n : Nat) (hl : look info0 l f = some (o, n)) : look info l f = some (o + hdrSz, n) := by
+  simp only [patchHdr, h0, Except.map] at h
+  cases h
+  simp only [look, List.getElem?_map] at hl ⊢
+  cases hi : info0[l]? with
+  | none => rw [hi] at hl; cases hl
+  | some p =>
+    obtain ⟨os, ns⟩ := p
+    rw [hi] at hl
+    simp only [Option.map, List.getElem?_map] at hl ⊢
+    cases ho : os[f]? <;> cases hn : ns[f]? <;> simp_all
+
+/-! ## write order -/
+
+/-- `overviews_first`: along the stream handed to the multi-part writer the IFD index never
+increases — every tile of every overview (`IFD k > 0`) is streamed before every
+full-resolution tile (`IFD 0`), coarsest level first. -/
+theorem overviews_first (ms : List Meta) (i j : Nat) (hi : i < (writeOrder ms).length)
+    (hj : j < (writeOrder ms).length) (hij : i < j) :
+    ((writeOrder ms)[j]).1 ≤ ((writeOrder ms)[i]).1 :=
+  List.pairwise_iff_getElem.mp (writeOrder_levels_desc ms) i j hi hj hij
+
+/-- hence (with `stream_intervals`; file offsets by `C06.main`): the data of an overview tile
+ends before the data of any full-resolution tile starts -/
+theorem overview_data_before_fullres (ms : List Meta) (start : Nat) (tiles : List Obs)
+    (hord : tiles.map (·.lvl) = (writeOrder ms).map (·.1))
+    (i j : Nat) (hi : i < tiles.length) (hj : j < tiles.length)
+    (hov : 0 < tiles[i].lvl) (hfull : tiles[j].lvl = 0) :
+    streamOff start tiles i + tiles[i].sz ≤ streamOff start tiles j := by
+  have hlen : tiles.length = (writeOrder ms).length := by
+    have := congrArg List.length hord; simpa using this
+  have hlv : ∀ k (hk : k < tiles.length), tiles[k].lvl = ((writeOrder ms)[k]'(hlen ▸ hk)).1 := by
+    intro k hk
+    have h1 : (tiles.map (·.lvl))[k]? = ((writeOrder ms).map (·.1))[k]? := by rw [hord]
+    simp only [List.getElem?_map, List.getElem?_eq_getElem hk,
+      List.getElem?_eq_getElem (hlen ▸ hk), Option.map] at h1
+    exact Option.some.inj h1
+  rcases Nat.lt_trichotomy i j with hlt | heq | hgt
+  · exact (stream_intervals start tiles).2.2.1 i j hi hlt
+  · subst heq; omega
+  · exfalso
+    have := overviews_first ms j i (hlen ▸ hj) (hlen ▸ hi) hgt
+    rw [← hlv i hi, ← hlv j hj] at this
+    omega
+
+/-- the write order contains exactly the tiles of every IFD's grid (for every plane) -/
+theorem write_order_complete (m0 : Meta) (rest : List Meta) (e : Nat × Nat × Nat × Nat) :
+    e ∈ writeOrder (m0 :: rest) ↔
+      ∃ m, (m0 :: rest)[e.1]? = some m ∧ e.2.1 < m0.planes ∧ e.2.2.1 < m.chunked.y ∧ e.2.2.2 < m.chunked.x := by
+  rw [writeOrder_eq]
+  simp only [List.mem_flatten, List.mem_reverse, bagsFrom, List.mem_flatMap, List.mem_map, List.mem_range]
+  constructor
+  · rintro ⟨b, ⟨⟨m, l⟩, hml, s, hs, rfl⟩, he⟩
+    obtain ⟨h1, h2, h3, h4⟩ := mem_bag he
+    rw [List.mem_zipIdx_iff_getElem?] at hml
+    exact ⟨m, by rw [h1]; exact hml, by rw [h2]; exact hs, h3, h4⟩
+  · rintro ⟨m, hm, hs, hy, hx⟩
+    refine ⟨bag m e.1 e.2.1, ⟨(m, e.1), List.mem_zipIdx_iff_getElem?.mpr hm, e.2.1, hs, rfl⟩, ?_⟩
+    simp only [bag, List.mem_flatMap, List.mem_map, List.mem_range]
+    exact ⟨e.2.2.1, hy, e.2.2.2, hx, rfl⟩
+
+example : writeOrder [⟨1, ⟨8, 40⟩, ⟨16, 16⟩⟩, ⟨1, ⟨4, 20⟩, ⟨16, 16⟩⟩] =
+    [(1, 0, 0, 0), (1, 0, 0, 1), (0, 0, 0, 0), (0, 0, 0, 1), (0, 0, 0, 2)] := by decide
 
 end OdcGeo.C05
